@@ -2,6 +2,32 @@
 Require Import Verif.Model.Base Verif.Model.Decision Verif.Model.Dec Verif.Model.Level.
 Require Import Verif.Proofs.LevelP Verif.Proofs.RegistryP.
 Require Import Verif.Corr.C01.
+Require Import Verif.Model.GoSem Verif.Model.LevelRef.
+Require Verif.Gen.LevelNames Verif.Proofs.GenLevelP.
+
+(* ---- the source against the model: Level.String, Level.ShortTag and ParseLevel as they are in
+   /repo now (translated on every run, Gen/LevelNames.v) compute the model's functions on the
+   tables of ANY registry [g] (C06 and C09 print records with these names and tags) ---- *)
+Theorem C17_gen_level_string : forall g l, LevelNames.level_string (r_l2s g) l = level_string g l.
+Proof. exact GenLevelP.gen_level_string. Qed.
+Print Assumptions C17_gen_level_string.
+
+(* ShortTag(n): [None] = the call panics - exactly for n outside 1..5; the slice t[:n] and
+   strings.Repeat can never panic on the way *)
+Theorem C17_gen_short_tag : forall g n l, LevelNames.short_tag (r_tags g) (r_l2s g) l n = short_tag g n l.
+Proof. exact GenLevelP.gen_short_tag. Qed.
+Print Assumptions C17_gen_short_tag.
+
+(* ParseLevel: the level and a nil error for a known name (looked up in lower case), otherwise
+   level 0, a non-nil error and one warning about that name *)
+Theorem C17_gen_parse_level : forall g s tr,
+  LevelNames.parse_level (r_s2l g) s tr =
+  match parse_level g s with
+  | Some l => (l, None, tr)
+  | None => (0, Some tt, tr ++ [EvWarnUnknown s])
+  end.
+Proof. exact GenLevelP.gen_parse_level. Qed.
+Print Assumptions C17_gen_parse_level.
 
 (* For every registry reachable from the tables of the source (init_registry is built from
    coq/Gen/Tables.v) by ANY list of RegisterLevel calls - arbitrary values, titles, options -
